@@ -66,8 +66,11 @@ Record cfg := mkCfg {
   c_mount : bool;       (* the destination is a registry.Mounter and MountFrom is set *)
   c_tagmounted : bool;  (* prepareCopy wraps OnMounted so that a mounted root is tagged (true for the
                            current code; false = the code before the fix, kept for the refutation) *)
-  c_cached0 : list node (* proxy cache at the start of copyGraph (resolveRoot through a ReferenceFetcher
+  c_cached0 : list node; (* proxy cache at the start of copyGraph (resolveRoot through a ReferenceFetcher
                            caches the resolved manifest) *)
+  c_xroots : list node  (* ExtendedCopyGraph: the further roots found by findRoots; all roots are dispatched
+                           by one syncutil.Go and share the tracker, the proxy and the limiter ([] for
+                           Copy / CopyGraph) *)
 }.
 
 Inductive pres := POk | PExists.                       (* dst.Push: nil | ErrAlreadyExists *)
@@ -164,7 +167,7 @@ Definition is_idle_or_done (p : phase) : bool := match p with Idle | Done => tru
 
 (* syncutil.Go(ctx, limiter, fn, successors...) of a parent that waits, or the root *)
 Definition dispatched (g : graph) (c : cfg) (st : state) (n : node) : bool :=
-  is_root c n ||
+  is_root c n || memb n (c_xroots c) ||
   existsb (fun p => is_waiting (ph st p) && memb n (succ' g p)) (seq 0 (g_n g)).
 
 Definition set_ph (st : state) (n : node) (p : phase) : state :=
@@ -311,6 +314,7 @@ Definition step (g : graph) (c : cfg) (st : state) (e : event) : option state :=
       end
   | Ret true =>
       if is_done (ph st (c_root c)) && forallb (fun n => is_idle_or_done (ph st n)) (seq 0 (g_n g))
+         && forallb (fun r => is_done (ph st r)) (c_xroots c)
       then Some (mkState (ph st) (dst st) (cached st) (tag st) (Some true)) else None
   | Ret false =>
       if existsb (fun n => is_dead (ph st n)) (seq 0 (g_n g))
